@@ -63,7 +63,7 @@ def step (st : DState) (toks : List String) : Option (DState × List String) :=
     match me.toNat?, mb.toNat?, sc.toNat?, parseCrash crash, faults.mapM parseFault with
     | some me, some mb, some sc, some crash, some faults =>
       let o : BackupOpts := { maxEntriesPerHunk := me, maxBlockSize := mb, smallFileCap := sc, owner := ow == "1" }
-      some (answer st (runOn st crash faults (backup blake2bHex o st.src)) showStats)
+      some (answer st (runOn st crash faults (do archiveOpen; backup blake2bHex o st.src)) showStats)
     | _, _, _, _, _ => some (st, ["bad-op"])
   | "delete" :: dry :: brk :: strict :: crash :: n :: rest =>
     match n.toNat?, parseCrash crash with
@@ -71,19 +71,19 @@ def step (st : DState) (toks : List String) : Option (DState × List String) :=
       match (rest.take n).mapM parseBandName, (rest.drop n).mapM parseFault with
       | some D, some faults =>
         let o : DeleteOpts := { dryRun := dry == "1", breakLock := brk == "1" }
-        some (answer st (runOn st crash faults (deleteBands (strict == "1") D o)) showDeleteStats)
+        some (answer st (runOn st crash faults (do archiveOpen; deleteBands (strict == "1") D o)) showDeleteStats)
       | _, _ => some (st, ["bad-op"])
     | _, _ => some (st, ["bad-op"])
   | "validate" :: mode :: faults =>
     match faults.mapM parseFault with
-    | some faults => some (answer st (runOn st none faults (validate blake2bHex (mode == "quick"))) (fun _ => ""))
+    | some faults => some (answer st (runOn st none faults (do archiveOpen; validate blake2bHex (mode == "quick"))) (fun _ => ""))
     | none => some (st, ["bad-op"])
   | "list" :: b :: sub :: n :: rest =>
-    match parseBandName b, parseBytes sub, n.toNat? with
+    match parseSel b, parseBytes sub, n.toNat? with
     | some b, some sub, some n =>
       match (rest.take n).mapM parseBytes, (rest.drop n).mapM parseFault with
       | some ex, some faults =>
-        let r := runOn st none faults (listEntries b sub (exclOf ex))
+        let r := runOn st none faults (do archiveOpen; listVersion b sub (exclOf ex))
         let lines := match r.1 with
           | .ok es => es.map fun e => "entry " ++ showEntry e
           | _ => []
@@ -95,7 +95,7 @@ def step (st : DState) (toks : List String) : Option (DState × List String) :=
     | some sel, some sub, some n =>
       match (rest.take n).mapM parseBytes, (rest.drop n).mapM parseFault with
       | some ex, some faults =>
-        let r := runOn st none faults (restore blake2bHex sel sub (exclOf ex))
+        let r := runOn st none faults (do archiveOpen; restore blake2bHex sel sub (exclOf ex))
         let lines := match r.1 with
           | .ok ns => ns.map showRNode
           | _ => []
@@ -104,7 +104,7 @@ def step (st : DState) (toks : List String) : Option (DState × List String) :=
     | _, _, _ => some (st, ["bad-op"])
   | ["resolve", sel] =>
     match parseSel sel with
-    | some sel => some (answer st (runOn st none [] (resolveBandId sel)) (fun b => bandName b))
+    | some sel => some (answer st (runOn st none [] (do archiveOpen; resolveBandId sel)) (fun b => bandName b))
     | none => some (st, ["bad-op"])
   | _ => none
 
